@@ -363,6 +363,8 @@ class _Inliner:
             changed = changed or again
             if not again:
                 break
+        if changed:
+            fn._inlined_helpers = True
         return changed
 
     def run(self):
